@@ -7,7 +7,7 @@ from ..harness import scn, gen, obs as O, pyeval, impl
 from . import base_scn
 
 pid = 'C13'
-gen_modules = ['tr_state', 'tr_validators', 'tr_has_patcher', 'tr_contracts', 'tr_decorators', 'tr_pin_contracts', 'tr_rest_validators', 'tr_rest_patcher', 'tr_rest_state', 'tr_rest_contractsconst', 'tr_dispatch', 'tr_rest_dispatch']
+gen_modules = ['tr_state', 'tr_validators', 'tr_has_patcher', 'tr_contracts', 'tr_decorators', 'tr_pin_contracts', 'tr_rest_validators', 'tr_rest_patcher', 'tr_rest_state', 'tr_rest_contractsconst', 'tr_dispatch', 'tr_rest_dispatch', 'tr_rest_records']
 model_targets = ['Sem/Scenario.v']
 hand_modelled = ['the cooperative scheduler: the driver resumes tasks in the order of the schedule; preemptive threads are not modelled']
 explanation = ('Theorem: every iteration of the generated generator wrapper returns control to the consumer with the switch and the streams as they '
